@@ -2,6 +2,7 @@ package checks
 
 import (
 	"context"
+	"errors"
 	"fmt"
 	"github.com/lightninglabs/lightning-node-connect/mailbox"
 	"math/rand"
@@ -23,7 +24,7 @@ func TestC13(t *testing.T) {
 	mon.Main(t, mon.Check{
 		ID:    "C13",
 		Level: "exploration",
-		Rule:  "real gbn code in virtual time, keepalive on. (D) dead peer: after some acknowledged traffic the transport goes silent (incoming link blackholed, or both) at an instant swept over offsets 0..2*ping after the last activity and over exact multiples of the ping interval; at that instant the application queues k in {0,1,N-1,N,N+5} messages; a small real-time slice repeats the dead-peer case with a slow transport (every write takes 0.8 ping intervals, in half of the cases first with a live peer whose acknowledgements arrive while ticks are pending, so the send loop is hardly ever parked when a keepalive timer fires; it cannot run in a bubble because Close then waits for a write while other goroutines wait on its sync.Once); ping/pong in {(5s,3s),(7s,3s),(1s,1s),(100ms,50ms),(30s,10s),(1s,3s)}, N in {1,3,20,254}, static and adaptive timeouts. Oracle: the endpoint closes itself within ping+pong+10*resendTimeout(at closure)+1s of the silence instant, and its blocked callers return. (B) a few real-time cases in which the peer dies while the endpoint is sending over a transport with backpressure (the relay's mailbox is a pipe: the write that follows blocks), same oracle; (M) the same one layer up: a paired mailbox session over a relay whose mailboxes hold four messages, client or server uploading when the other dies, bound ping+pong+15 s. (H) healthy idle: both ends keepalive (mailbox's 7s/3s vs 5s/3s and others), round-trip time in {0, pong/2, pong-20ms}, 1-24 h of virtual idleness, a third of them with the ACK of a keepalive ping lost now and then (the resent ping is answered by a NACK within the pong timeout); oracle: no endpoint closes and ping packets were seen on the wire. One case in nineteen is a healthy-idle case of the edge family N=1, static 1 s resend, both ends pinging every 1 s with a 3 s pong timeout over a 2.98 s round trip, 24 h (pings always outstanding, ticks coinciding with arrivals). A case whose bubble freezes (a goroutine waits on a mutex, which stops the virtual clock) is repeated on the real clock when its bound is below 100 s and judged there. A third of the cases run over links whose Send/Recv calls take a PRNG-chosen 1 ns .. 200 µs (schedule perturbation around coinciding timer expiries and arrivals). Non-trivial = silence was injected while the connection was open / pings observed; distinct = (kind, ping, pong, N, backlog class, one/two-sided, timeout mode, offset bucket).",
+		Rule:  "real gbn code in virtual time, keepalive on. (D) dead peer: after some acknowledged traffic the transport goes silent (incoming link blackholed, or both) at an instant swept over offsets 0..2*ping after the last activity and over exact multiples of the ping interval; at that instant the application queues k in {0,1,N-1,N,N+5} messages; a small real-time slice repeats the dead-peer case with a slow transport (every write takes 0.8 ping intervals, in half of the cases first with a live peer whose acknowledgements arrive while ticks are pending, so the send loop is hardly ever parked when a keepalive timer fires; it cannot run in a bubble because Close then waits for a write while other goroutines wait on its sync.Once); ping/pong in {(5s,3s),(7s,3s),(1s,1s),(100ms,50ms),(30s,10s),(1s,3s)}, N in {1,3,20,254}, static and adaptive timeouts. Oracle: the endpoint closes itself within ping+pong+10*resendTimeout(at closure)+1s of the silence instant, and its blocked callers return. (B) a few real-time cases in which the peer dies while the endpoint is sending over a transport with backpressure (the relay's mailbox is a pipe: the write that follows blocks), same oracle; (M) the same one layer up: a paired mailbox session over a relay whose mailboxes hold four messages, client or server uploading when the other dies, bound ping+pong+15 s; in a third of these cases nobody dies but the uploader's sends fail at the relay for 14 s: afterwards the connection must be closed or delivering again within 25 s. (H) healthy idle: both ends keepalive (mailbox's 7s/3s vs 5s/3s and others), round-trip time in {0, pong/2, pong-20ms}, 1-24 h of virtual idleness, a third of them with the ACK of a keepalive ping lost now and then (the resent ping is answered by a NACK within the pong timeout); oracle: no endpoint closes and ping packets were seen on the wire. One case in nineteen is a healthy-idle case of the edge family N=1, static 1 s resend, both ends pinging every 1 s with a 3 s pong timeout over a 2.98 s round trip, 24 h (pings always outstanding, ticks coinciding with arrivals). A case whose bubble freezes (a goroutine waits on a mutex, which stops the virtual clock) is repeated on the real clock when its bound is below 100 s and judged there. A third of the cases run over links whose Send/Recv calls take a PRNG-chosen 1 ns .. 200 µs (schedule perturbation around coinciding timer expiries and arrivals). Non-trivial = silence was injected while the connection was open / pings observed; distinct = (kind, ping, pong, N, backlog class, one/two-sided, timeout mode, offset bucket).",
 		Assumptions: []string{
 			"detection bound uses the connection's own (possibly boosted) resend timeout read through the hook: the send loop may sit in the resend sync wait (3x resend timeout) when the timers fire",
 		},
@@ -179,6 +180,13 @@ func runC13Backpressure(c *mon.Case) {
 	k := []pp{{250 * time.Millisecond, 500 * time.Millisecond}, {500 * time.Millisecond, time.Second}}[rng.Intn(2)]
 	n := []uint8{1, 3, 20}[rng.Intn(3)]
 	conf := eng.GBNConf{N: n, PingC: k.ping, PongC: k.pong, Static: true, Resend: time.Second}
+	// In half of the cases the application has stopped sending when the peer
+	// dies and the resend timeout is shorter than the ping time, so that the
+	// first write that blocks is a retransmission, not a fresh packet.
+	resendFirst := rng.Intn(2) == 0
+	if resendFirst {
+		conf.Resend = 100 * time.Millisecond
+	}
 	ctx, cancel := context.WithCancel(context.Background())
 	defer cancel()
 	p := eng.NewPair(conf)
@@ -195,8 +203,9 @@ func runC13Backpressure(c *mon.Case) {
 			}
 		}
 	}()
+	var stopSending atomic.Bool
 	go func() {
-		for i := 0; ; i++ {
+		for i := 0; !stopSending.Load(); i++ {
 			if p.C.Send(eng.MsgBytes('a', i, 200)) != nil {
 				return
 			}
@@ -204,11 +213,18 @@ func runC13Backpressure(c *mon.Case) {
 		}
 	}()
 	time.Sleep(time.Duration(100+rng.Intn(400)) * time.Millisecond)
+	if resendFirst {
+		// lose the acknowledgements of the last packets, stop the
+		// application, and let the fresh packets drain into the link
+		p.S2C.SetBlackhole(true, true)
+		stopSending.Store(true)
+		time.Sleep(30 * time.Millisecond)
+	}
 	t0 := time.Now()
 	p.S2C.SetBlackhole(true, true)
 	p.C2S.SetBlockSend(true)
 	bound := k.ping + k.pong + 10*time.Second + 5*time.Second
-	rep := map[string]any{"kind": "B", "conf": conf.String(), "bound": bound.String()}
+	rep := map[string]any{"kind": "B", "conf": conf.String(), "bound": bound.String(), "first_blocked_write_is_a_retransmission": resendFirst}
 	select {
 	case <-p.C.VerifDone():
 		c.Shard.Max("max_detection_backpressure_ms", time.Since(t0).Milliseconds())
@@ -220,7 +236,7 @@ func runC13Backpressure(c *mon.Case) {
 	cancel()
 	go p.CloseAll()
 	c.Shard.Count("backpressure_cases", 1)
-	c.Shard.Eval(fmt.Sprintf("B|%v|%d", k.ping, n))
+	c.Shard.Eval(fmt.Sprintf("B|%v|%d|resendFirst=%v", k.ping, n, resendFirst))
 }
 
 // runC13MailboxDeadPeer: the same situation one layer up, on the real clock: a
@@ -239,11 +255,17 @@ func runC13MailboxDeadPeer(c *mon.Case) {
 	cl := eng.NewMboxParty(eng.NewKey(rng), nil, pass, nil, 0, 2)
 	sid, _ := cl.CD.SID()
 	c2s, s2c := sidHex(mailbox.GetSID(sid, false)), sidHex(mailbox.GetSID(sid, true))
-	serverDies := rng.Intn(2) == 0
-	var dead atomic.Bool
+	serverDies := (c.Idx/100)%2 == 0
+	// a third of the cases: nobody dies, but the uploader's sends fail at
+	// the relay for 14 s (longer than ping + pong), then work again
+	outage := (c.Idx/200)%3 == 0
+	var dead, sendsFail atomic.Bool
 	relay.Fault = func(op sim.RelayOp) sim.RelayAction {
 		if dead.Load() && op.Kind == "send" && ((serverDies && op.Stream == s2c) || (!serverDies && op.Stream == c2s)) {
 			return sim.RelayAction{Drop: true}
+		}
+		if sendsFail.Load() && op.Kind == "send" && ((serverDies && op.Stream == c2s) || (!serverDies && op.Stream == s2c)) {
+			return sim.RelayAction{Fail: errors.New("rpc error: code = Unavailable desc = transport is closing (injected)")}
 		}
 		return sim.RelayAction{}
 	}
@@ -270,10 +292,13 @@ func runC13MailboxDeadPeer(c *mon.Case) {
 	if !serverDies {
 		up, down = sc, cc
 	}
+	var received atomic.Int64
 	go func() {
 		b := make([]byte, 65536)
 		for {
-			if _, err := down.Read(b); err != nil {
+			n, err := down.Read(b)
+			received.Add(int64(n))
+			if err != nil {
 				return
 			}
 		}
@@ -289,6 +314,38 @@ func runC13MailboxDeadPeer(c *mon.Case) {
 	}()
 	time.Sleep(time.Duration(500+rng.Intn(1000)) * time.Millisecond)
 	t0 := time.Now()
+	who := map[bool]string{true: "client", false: "server"}[serverDies]
+	if outage {
+		// The connection may ride the outage out or fail visibly; what it
+		// may not do is neither: still open, and nothing delivered, 25 s
+		// after the relay works again.
+		sendsFail.Store(true)
+		var closedEarly bool
+		select {
+		case <-readDone:
+			closedEarly = true
+		case <-time.After(14 * time.Second):
+		}
+		sendsFail.Store(false)
+		rep := map[string]any{"kind": "M-outage", "uploader": who, "relay_capacity": relay.Cap}
+		if !closedEarly {
+			at := received.Load()
+			select {
+			case <-readDone:
+			case <-time.After(25 * time.Second):
+				if received.Load() == at {
+					c.Shard.Violate("silent-hang|mailbox-send-outage",
+						fmt.Sprintf("mailbox session, the %s uploading: its sends failed at the relay for 14 s and then worked again; 25 s later its connection is neither closed nor has a single further byte been delivered", who), rep)
+					mon.FlushAndExit(c.Shard)
+				}
+			}
+		}
+		_ = up.Close()
+		_ = down.Close()
+		c.Shard.Count("mailbox_send_outage_cases", 1)
+		c.Shard.Eval("MO|" + who)
+		return
+	}
 	dead.Store(true)
 	if serverDies {
 		relay.FreezeReads(c2s, true)
@@ -296,7 +353,6 @@ func runC13MailboxDeadPeer(c *mon.Case) {
 		relay.FreezeReads(s2c, true)
 	}
 	bound := 7*time.Second + 3*time.Second + 15*time.Second
-	who := map[bool]string{true: "client", false: "server"}[serverDies]
 	rep := map[string]any{"kind": "M", "uploader": who, "relay_capacity": relay.Cap, "bound": bound.String()}
 	select {
 	case <-readDone:
@@ -315,7 +371,7 @@ func runC13MailboxDeadPeer(c *mon.Case) {
 }
 
 func runC13(c *mon.Case) {
-	if c.Idx%400 == 111 {
+	if c.Idx%100 == 11 {
 		runC13MailboxDeadPeer(c)
 		return
 	}
@@ -348,7 +404,10 @@ func runC13Dead(c *mon.Case) {
 		conf.Lat = 0
 	}
 	if rng.Intn(2) == 0 {
-		conf.Static, conf.Resend = true, []time.Duration{time.Second, 2 * time.Second, 6 * time.Second}[rng.Intn(3)]
+		// (200 ms: the sync wait after a resend, 3x the resend timeout, is
+		// then shorter than every pong timeout but one, so that several
+		// keepalive ticks can pass while the window stays full)
+		conf.Static, conf.Resend = true, []time.Duration{200 * time.Millisecond, time.Second, 2 * time.Second, 6 * time.Second}[rng.Intn(4)]
 	}
 	// the peer's own keepalive may be different or off
 	switch rng.Intn(3) {
